@@ -576,8 +576,6 @@ class Enumerator:
             self._allow_generator = False
         if target is None or not any(isinstance(x, (ast.Yield, ast.YieldFrom)) for x in _own_nodes_of(target.node)):
             return None
-        if any(isinstance(x, ast.YieldFrom) and not isinstance(x.value, ast.Call) for x in _own_nodes_of(target.node)):
-            return None
         return target
 
     def _for_over_generator(self, s, st, callee: FuncInfo):
@@ -1187,6 +1185,23 @@ class Enumerator:
         return self.ev(n.value, st, ky)
 
     def e_YieldFrom(self, n, st, k):
+        hooks = getattr(self, "_yield_hooks", None)
+        driven = bool(hooks and st.frames and st.frames[-1] is hooks[-1].callee and "$caller" in st.env)
+        if driven and not (isinstance(n.value, ast.Call) and self._gen_callee(n.value, st) is not None):
+            # inside a generator that a caller's `for` drives: `yield from xs`  ==  `for _v in xs: yield _v`
+            tmp = f"__yf{getattr(n, 'lineno', 0)}"
+            y = ast.Expr(value=ast.Yield(value=ast.Name(id=tmp, ctx=ast.Load())))
+            loop = ast.For(target=ast.Name(id=tmp, ctx=ast.Store()), iter=n.value, body=[y], orelse=[])
+            for x_ in (y, loop):
+                ast.copy_location(x_, n)
+            ast.fix_missing_locations(loop)
+            out = []
+            for st2, oc in self.s_For(loop, st):
+                if oc is FALL:
+                    out.extend(k(st2, ast.Constant(value=None)))
+                else:
+                    out.append((st2, oc))
+            return out
         # `yield from helper(...)` where helper is an inlinable generator: its yields become ours
         if isinstance(n.value, ast.Call):
             self._allow_generator = True
@@ -1324,6 +1339,33 @@ class Enumerator:
             for st2, oc in self.s_For(loop, st):
                 if oc is FALL:
                     out.extend(k(st2, ast.Constant(value=None)))
+                else:
+                    out.append((st2, oc))
+            return out
+        gen_args = [i for i, a in enumerate(n.args) if isinstance(a, ast.Call) and not getattr(n, "_gen_args_done", False)
+                    and self._gen_callee(a, st) is not None]
+        if gen_args:
+            # f(gen(...)) with gen a generator introduced later and f not a loop of ours: what f walks is what gen yields -
+            # collect it here (the one-shot analysis sees to it that f walks it once), then call f with the collected list
+            pre = []
+            new_args = list(n.args)
+            for i in gen_args:
+                tmp = f"__ga{getattr(n, 'lineno', 0)}_{i}"
+                init = ast.Assign(targets=[ast.Name(id=tmp, ctx=ast.Store())], value=ast.List(elts=[], ctx=ast.Load()))
+                app = ast.Expr(value=ast.Call(func=ast.Attribute(value=ast.Name(id=tmp, ctx=ast.Load()), attr="append", ctx=ast.Load()),
+                                              args=[ast.Name(id=tmp + "_v", ctx=ast.Load())], keywords=[]))
+                loop = ast.For(target=ast.Name(id=tmp + "_v", ctx=ast.Store()), iter=n.args[i], body=[app], orelse=[])
+                pre.extend([init, loop])
+                new_args[i] = ast.Name(id=tmp, ctx=ast.Load())
+            call2 = ast.Call(func=n.func, args=new_args, keywords=n.keywords)
+            call2._gen_args_done = True
+            for x_ in pre + [call2]:
+                ast.copy_location(x_, n)
+                ast.fix_missing_locations(x_)
+            out = []
+            for st2, oc in self.block(pre, st):
+                if oc is FALL:
+                    out.extend(self.e_Call(call2, st2, k, awaited=awaited))
                 else:
                     out.append((st2, oc))
             return out
